@@ -109,7 +109,7 @@ def _run(ctx):
     # 1. the design -------------------------------------------------------------------------------------------------------
     ctx.tlc_mc(SPEC, "Laws.tla", "MC_Laws.cfg" if not quick else "MC_Laws_quick.cfg", jvm=JVM,
                required_actions=["PickB64Bytes", "PickB64Chars", "PickHexBytes", "PickHexChars", "PickScalValue", "PickScalBytes",
-                                 "PickUrlBytes", "PickUrlChars", "PickSum", "PickMd5", "PickAes", "PickSbox"])
+                                 "PickUrlBytes", "PickUrlChars", "PickSum", "PickSumBoundary", "PickMd5", "PickAes", "PickSbox"])
     ctx.tlc_mc(SPEC, "MC_B64Impl.tla", "MC_B64Impl_ok.cfg", jvm=JVM, required_actions=["Call", "Step", "Finish"])
     ctx.tlc_mc(SPEC, "MC_ScalImpl.tla", "MC_ScalImpl_ok.cfg", jvm=JVM, required_actions=["Call", "Step", "Incomplete", "Table"])
     ctx.tlc_mc(SPEC, "MC_Serializer.tla", "MC_Serializer_quick.cfg" if quick else "MC_Serializer_thorough.cfg", jvm=JVM, timeout=1500,
@@ -122,6 +122,8 @@ def _run(ctx):
     for cfg, inv in (("MC_ScalImpl_loop.cfg", "TableIndexInRange"), ("MC_ScalImpl_wrap.cfg", "ResultConforms")):
         ctx.tlc_mc(SPEC, "MC_ScalImpl.tla", cfg, expect=inv, jvm=JVM, coverage=False)
     ctx.tlc_mc(SPEC, "MC_Serializer.tla", "MC_Serializer_wrap.cfg", expect="BoundsRuleAndRoundTrip", jvm=JVM, coverage=False)
+    #   "one fold of the carries is enough" must be refuted on the carry-boundary checksum domain (the domain reaches the second carry)
+    ctx.tlc_mc(SPEC, "Laws.tla", "MC_Laws_singlefold.cfg", expect="SingleFoldSuffices", jvm=JVM, coverage=False)
     cleanup_ttrace()
 
     # 2. spec -> code: every case of the bounded domains on the real functions ------------------------------------------------
